@@ -321,6 +321,11 @@ func runC13(p *core.Prog, r *core.Report, tier string) {
 			if !strings.HasPrefix(f.Name(), "accountsForEpoch") {
 				continue
 			}
+			// (f) what a by-index query returns without an error is the map it filled itself under the requested-only
+			// guard — not the answer of another query (the unrestricted one, for instance, when nothing was requested)
+			if strings.Contains(f.Name(), "ByIndex") && f.Parent() == nil {
+				checkOwnFilteredResult(p, r, ds, "C13.f", tag+"|"+core.FnKey(f), f)
+			}
 			core.EachInstr(f, func(in ssa.Instruction) {
 				mu, ok := in.(*ssa.MapUpdate)
 				if !ok || !strings.Contains(mu.Map.Type().String(), "map[github.com/attestantio/go-eth2-client/spec/phase0.ValidatorIndex]") {
@@ -382,6 +387,54 @@ func runC13(p *core.Prog, r *core.Report, tier string) {
 	nVM := checkFieldsUnderMutex(p, r, core.NewLockAnalysis(p), "C13.g", "services/validatorsmanager/standard", []string{"validatorsByIndex", "validatorsByPubKey", "validatorPubKeyToIndex"}, "validatorsMutex",
 		"a refresh between this access and the others makes the lookup mix two validator sets (an account reported under another validator's index, or under index 0)")
 	r.Floor("C13.g accesses to the validators manager's maps", nVM, 6)
+
+	// ---- (n) what is remembered about an account is remembered under something that identifies the account: a
+	// package-level collection (a map, a sync.Map) in util or the account managers is not keyed by the bare account name
+	// — accounts of different wallets share names ----
+	nKeyed := 0
+	for _, rel := range []string{"util", "services/accountmanager/dirk", "services/accountmanager/wallet"} {
+		for _, f := range p.FuncsIn(rel) {
+			core.EachInstr(f, func(in ssa.Instruction) {
+				var key ssa.Value
+				switch x := in.(type) {
+				case *ssa.MapUpdate:
+					if ld, ok := x.Map.(*ssa.UnOp); ok {
+						if _, isG := ld.X.(*ssa.Global); isG {
+							key = x.Key
+						}
+					}
+				case *ssa.Lookup:
+					if ld, ok := x.X.(*ssa.UnOp); ok {
+						if _, isG := ld.X.(*ssa.Global); isG {
+							key = x.Index
+						}
+					}
+				case *ssa.Call:
+					if callee := x.Call.StaticCallee(); callee != nil && callee.Signature.Recv() != nil && strings.HasSuffix(callee.Signature.Recv().Type().String(), "sync.Map") && len(x.Call.Args) >= 2 {
+						if _, isG := x.Call.Args[0].(*ssa.Global); isG {
+							key = x.Call.Args[1]
+						}
+					}
+				}
+				if key == nil {
+					return
+				}
+				d := ds.D(key)
+				byName := d.Any(func(v *core.VD) bool { return v.Kind == "call" && strings.HasSuffix(v.Name, "Account.Name") })
+				if !byName {
+					return
+				}
+				nKeyed++
+				byID := d.Any(func(v *core.VD) bool {
+					return v.Kind == "call" && (strings.HasSuffix(v.Name, "Account.ID") || strings.HasSuffix(v.Name, "Account.PublicKey") || strings.HasSuffix(v.Name, "CompositePublicKey") || strings.HasSuffix(v.Name, "Wallet.Name") || strings.HasSuffix(v.Name, "Wallet.ID"))
+				})
+				r.Check(byID, "C13.n", fmt.Sprintf("%s|package-level-collection-keyed-by-account-name#%d", core.FnKey(f), nKeyed), p.Pos(in.Pos()), "the key also names the wallet or the account's identity", "a package-level collection is keyed by "+d.String()+", the bare name of the account: two wallets that each hold an account of that name share the entry, and the second account is given the first one's data (its public key)")
+			})
+		}
+	}
+	if nKeyed == 0 {
+		r.Hold("C13.n", "no-package-level-collection-keyed-by-account-name", "", "no package-level collection in util or the account managers is keyed by an account's name")
+	}
 
 	// (h) the validators manager's refresh replaces the whole set, so it is asked once, with the whole list of public
 	// keys: not in a loop, not with a part of the list (only the last batch would stay known)
@@ -554,6 +607,26 @@ func runC13(p *core.Prog, r *core.Report, tier string) {
 			}
 			r.Check(okK && okV && sameKey, "C13.d", "validatorsmanager|ValidatorsByPubKey|entry", p.Pos(mu.Pos()), "result[index of pubkey] = validator of the same pubkey", "the result pairs index "+kd.String()+" with validator "+vd.String())
 		})
+	}
+}
+
+// checkOwnFilteredResult: what a by-index query returns without an error is the map it filled itself.
+func checkOwnFilteredResult(p *core.Prog, r *core.Report, ds *core.Describer, rule, construct string, f *ssa.Function) {
+	for k, ret := range core.ReturnsOf(f) {
+		if len(ret.Results) != 2 || ret.Block() == f.Recover {
+			continue
+		}
+		if _, isMap := ret.Results[0].Type().Underlying().(*types.Map); !isMap {
+			continue
+		}
+		own := true
+		for _, lf := range core.PhiLeaves(core.Unspill(ret.Results[0]), ret) {
+			if _, isMake := lf.V.(*ssa.MakeMap); !isMake && !core.IsNilConst(lf.V) {
+				own = false
+			}
+		}
+		r.Check(own, rule, fmt.Sprintf("%s|return#%d|own-filtered-result", construct, k+1), p.Pos(ret.Pos()), "the by-index query returns the map it filled itself",
+			"the by-index query returns "+ds.D(ret.Results[0]).String()+", not the map it filled under the requested-only guard: validators that were not requested are reported (every account, when the list of requested indices is empty)")
 	}
 }
 
